@@ -35,7 +35,7 @@ def strip_list(t):
 def remove_rules(rep, prog):
     q = U + "remove_edges"
     f = need(prog, q)
-    S = Sym(prog)
+    S = Sym(prog, inline=inline_helpers(prog, "sempler.utils"))
     summ, _ = run_function(S, f)
     calls = [c for c in S.select("call", qname=q) if c.target == U + "directed_edges"]
     if len(calls) != 1 or calls[0].args[0] not in BINS:
@@ -73,7 +73,7 @@ def remove_rules(rep, prog):
 def add_rules(rep, prog):
     q = U + "add_edges"
     f = need(prog, q)
-    S = Sym(prog)
+    S = Sym(prog, inline=inline_helpers(prog, "sempler.utils"))
     summ, _ = run_function(S, f)
     loops = [(k, v) for k, v in S.loopinfo.items() if v["func"] == q]
     if len(loops) != 1:
